@@ -5,6 +5,7 @@ import (
 	"math"
 	"strings"
 	"testing"
+	"time"
 
 	"pgregory.net/rapid"
 
@@ -453,6 +454,72 @@ func c18GenValue(t *rapid.T, depth int) *hx.Spec {
 	return a
 }
 
+// (5) pointers to values the value specs cannot hold (times, strings in typed slices): reached by a variable, a
+// struct field, a map entry or a loop variable, a pointer behaves as what it points to, and a nil one as nil
+
+type c18PtrCase struct {
+	Tpl string `json:"template"`
+}
+
+type c18PtrStruct struct {
+	T *time.Time
+	N *int
+	S *string
+	Z *time.Time
+}
+
+type c18ValStruct struct {
+	T time.Time
+	N int
+	S string
+	Z any
+}
+
+func c18PtrEnvs() (ptr, plain map[string]any) {
+	t1 := time.Date(2024, 2, 29, 13, 14, 15, 0, time.UTC)
+	t2 := time.Date(1999, 12, 31, 23, 59, 59, 0, time.FixedZone("X", 3600))
+	n1, n2, s1 := 7, -2, "str"
+	var nt *time.Time
+	var ni *int
+	ptr = map[string]any{
+		"pt": &t1, "pn": &n1, "ps": &s1, "nilt": nt,
+		"st":   c18PtrStruct{T: &t2, N: &n2, S: &s1},
+		"pst":  &c18PtrStruct{T: &t1, N: &n1, S: &s1},
+		"m":    map[string]*time.Time{"k": &t1, "z": nil},
+		"mi":   map[string]*int{"k": &n1, "z": nil},
+		"ints": []*int{&n1, nil, &n2}, "times": []*time.Time{&t2, &t1}, "anys": []any{&n1, &s1, &t1, ni},
+	}
+	plain = map[string]any{
+		"pt": t1, "pn": n1, "ps": s1, "nilt": nil,
+		"st":   c18ValStruct{T: t2, N: n2, S: s1},
+		"pst":  c18ValStruct{T: t1, N: n1, S: s1},
+		"m":    map[string]any{"k": t1, "z": nil},
+		"mi":   map[string]any{"k": n1, "z": nil},
+		"ints": []any{n1, nil, n2}, "times": []any{t2, t1}, "anys": []any{n1, s1, t1, nil},
+	}
+	return
+}
+
+var c18Ptr = hx.Define("c18.pointers", func(c *c18PtrCase, s *hx.Sub) *hx.Violation {
+	ptr, plain := c18PtrEnvs()
+	o1, o2 := hx.Render(c.Tpl, ptr), hx.Render(c.Tpl, plain)
+	if o1.Panic != nil {
+		return hx.V("panic@"+o1.Panic.Site, "%s: %v", c.Tpl, o1.Panic)
+	}
+	if !o2.OK() {
+		s.Unspec()
+		return nil
+	}
+	if !o1.Same(o2) {
+		return hx.V("c18:pointer", "%s renders %v with pointers (to a time, an int, a string; as variables, struct fields, map entries and slice elements; nil ones too) and %v with the values they point to (nil for the nil ones)", c.Tpl, o1, o2)
+	}
+	s.NT()
+	if s.WantSample() {
+		s.Sample(map[string]any{"template": c.Tpl, "output": o1.Out})
+	}
+	return nil
+})
+
 func TestC18(t *testing.T) {
 	col := hx.NewCollector("C18")
 	defer col.Finish()
@@ -469,6 +536,35 @@ func TestC18(t *testing.T) {
 			t.Fatalf("%s", v.Message)
 		}
 	})
+
+	pc := c18Ptr.On(col, "exhaustive over a list: pointers to a time, an int and a string as variables, as fields of a struct and of a pointer to one, as map entries, as elements of typed and generic slices, nil ones among them, x {print, date / plus / append / size filters, comparison with itself and a literal, if, case, for with the loop variable printed and filtered, first / last / index, join, sort, array printing}. Metamorphic oracle: identical result with every pointer replaced by what it points to (nil for a nil pointer); unspecified when that reference render fails. Distinct by construction", true)
+	{
+		var tpls []string
+		for _, x := range []string{"pt", "st.T", "pst.T", "m.k", "times[0]", "times.last", "anys[2]"} {
+			tpls = append(tpls, "{{ "+x+" }}", `{{ `+x+` | date: "%Y-%m-%d %H:%M" }}`, "{% if "+x+" %}T{% else %}F{% endif %}", "{{ "+x+" == "+x+" }}|{{ "+x+" == pt }}|{{ "+x+" != nil }}", `{{ "at " | append: `+x+` }}`)
+		}
+		for _, x := range []string{"pn", "st.N", "pst.N", "mi.k", "ints[0]", "ints.last", "anys.first"} {
+			tpls = append(tpls, "{{ "+x+" }}", "{{ "+x+" | plus: 1 }}|{{ 1 | minus: "+x+" }}", "{{ "+x+" == 7 }}|{{ "+x+" < 0 }}|{{ "+x+" >= pn }}", "{% case "+x+" %}{% when 7 %}seven{% when -2 %}minus{% else %}other{% endcase %}", "{% for i in (1.."+x+") %}{{ i }}{% endfor %}")
+		}
+		for _, x := range []string{"ps", "st.S", "pst.S", "anys[1]"} {
+			tpls = append(tpls, "{{ "+x+" }}", "{{ "+x+" | upcase }}|{{ "+x+" | size }}|{{ "+x+".size }}", `{{ `+x+` == "str" }}|{{ `+x+` contains "t" }}`)
+		}
+		for _, x := range []string{"nilt", "st.Z", "m.z", "mi.z", "ints[1]", "anys.last", "anys[3]"} {
+			tpls = append(tpls, "[{{ "+x+" }}]", "{% if "+x+" %}T{% else %}F{% endif %}", "{{ "+x+" == nil }}|{{ "+x+" | default: 'd' }}", "{% for i in "+x+" %}x{% else %}E{% endfor %}")
+		}
+		for _, a := range []string{"ints", "times", "anys"} {
+			tpls = append(tpls, "{{ "+a+" }}", `{{ `+a+` | join: "," }}`, "{% for p in "+a+" %}[{{ p }}]{% endfor %}", "{{ "+a+" | size }}|{{ "+a+".size }}", "{{ "+a+" | first }}|{{ "+a+" | last }}|{{ "+a+" | reverse | first }}", "{% tablerow p in "+a+" %}{{ p }}{% endtablerow %}")
+		}
+		// (filters that look at the elements of an array without a lookup - compact, uniq, sort, contains - are left out:
+		// the statement speaks of pointers reached by variable or property lookup)
+		tpls = append(tpls, `{% for p in times %}{{ p | date: "%Y" }},{% endfor %}`, `{% for p in ints %}{{ p | plus: 1 }},{% endfor %}`,
+			`{% for kv in m %}{{ kv[0] }}={{ kv[1] }};{% endfor %}`, `{% for kv in mi %}{{ kv[0] }}={{ kv[1] | plus: 1 }};{% endfor %}`, `{{ m | size }}|{{ mi.size }}`, `{% assign q = pt %}{{ q }}|{{ q | date: "%s" }}`, `{% capture q %}{{ pt }}{{ pn }}{{ ps }}{% endcapture %}{{ q }}`)
+		for i, tpl := range tpls {
+			if env.Mine(i) {
+				pc.Run(&c18PtrCase{Tpl: tpl})
+			}
+		}
+	}
 
 	eq := c18Eq.On(col, "rapid: a logical value (scalar, array or string-keyed map, nested to depth 2) realised twice with independently drawn representations at every node (numeric widths, typed slices, fixed arrays, typed maps, Drops at any depth) and a second value z; x == y, x != y, x == z, case x / when z / when y, array-of-arrays contains y / z, uniq over [x, y, x]; metamorphic oracle: same result as with canonical representations. Non-trivial: renders; distinct by the three representation fingerprints", false)
 	col.Rapid(eq.Sub, env.PerShard(env.Pick(150000, 1500000)), func(t *rapid.T) {
